@@ -1,0 +1,111 @@
+//go:build verif
+// +build verif
+
+package rafthttp
+
+import (
+	"bytes"
+	"io/ioutil"
+	"net/http"
+
+	"github.com/coreos/etcd/version"
+	"github.com/youzan/ZanRedisDB/pkg/types"
+	"github.com/youzan/ZanRedisDB/raft/raftpb"
+	"github.com/youzan/ZanRedisDB/snap"
+	"github.com/youzan/ZanRedisDB/stats"
+)
+
+// Exports for the verification harness (/verif, property C16): the reading end of a stream
+// (a real streamReader over a RoundTripper of the harness), the pipeline (HTTP POST) path and
+// the snapshot path with their real handlers.  Nothing here changes behaviour.
+
+const verifClusterID = "1"
+
+// VerifServerVersion is the version a stream response has to announce.
+func VerifServerVersion() string { return version.Version }
+
+func verifTransport(local types.ID, r Raft, rt http.RoundTripper) *Transport {
+	return &Transport{ID: local, ClusterID: verifClusterID, Raft: r, streamRt: rt, pipelineRt: rt,
+		ErrorC: make(chan error, 16)}
+}
+
+func verifPicker(url string) (*urlPicker, error) {
+	urls, err := types.NewURLs([]string{url})
+	if err != nil {
+		return nil, err
+	}
+	return newURLPicker(urls), nil
+}
+
+// VerifStreamReader wraps a running streamReader.
+type VerifStreamReader struct{ r *streamReader }
+
+// VerifStartStreamReader is peer.go's `startStreamReader(peerID, typ, tr, picker, status, r)`
+// (or the plain struct + start() for the msgappv2 reader): every dial goes through rt, whose
+// response body is the connection; decoded messages go to r.Process.
+func VerifStartStreamReader(local, peer types.ID, v2 bool, rt http.RoundTripper, r Raft) (*VerifStreamReader, error) {
+	picker, err := verifPicker("http://127.0.0.1:1")
+	if err != nil {
+		return nil, err
+	}
+	t := streamTypeMessage
+	if v2 {
+		t = streamTypeMsgAppV2
+	}
+	return &VerifStreamReader{startStreamReader(peer, t, verifTransport(local, r, rt), picker, newPeerStatus(peer), r)}, nil
+}
+
+// Stop is streamReader.stop().
+func (v *VerifStreamReader) Stop() { v.r.stop() }
+
+// VerifNewPipelineHandler is `newPipelineHandler(tr, r, cid)` (Transport.Handler).
+func VerifNewPipelineHandler(r Raft) http.Handler {
+	return newPipelineHandler(NewNopTransporter(), r, verifClusterID)
+}
+
+// VerifNewSnapshotHandler is `newSnapshotHandler(tr, r, snapshotter, cid)`.
+func VerifNewSnapshotHandler(r Raft, saver ISnapSaver) http.Handler {
+	return newSnapshotHandler(NewNopTransporter(), r, saver, verifClusterID)
+}
+
+// VerifPipeline wraps a started pipeline (peer.go startPeer).
+type VerifPipeline struct{ p *pipeline }
+
+// VerifStartPipeline starts a real pipeline posting to url through rt.
+func VerifStartPipeline(local, peer types.ID, url string, rt http.RoundTripper, r Raft) (*VerifPipeline, error) {
+	picker, err := verifPicker(url)
+	if err != nil {
+		return nil, err
+	}
+	p := &pipeline{peerID: peer, tr: verifTransport(local, r, rt), picker: picker, status: newPeerStatus(peer),
+		raft: r, errorc: make(chan error, 16), peerStats: &stats.PeerStats{}}
+	p.start()
+	return &VerifPipeline{p}, nil
+}
+
+// Msgc is the pipeline's queue (peer.send picks it for MsgSnap and as a fall-back).
+func (v *VerifPipeline) Msgc() chan<- raftpb.Message { return v.p.msgc }
+
+// Stop is pipeline.stop().
+func (v *VerifPipeline) Stop() { v.p.stop() }
+
+// VerifPostSnapshot builds the request snapshotSender.send builds - createSnapBody (the
+// message through messageEncoder, then the database bytes) + createPostRequest to
+// RaftSnapshotPrefix - and posts it through rt; it returns the HTTP status.
+func VerifPostSnapshot(local types.ID, url string, rt http.RoundTripper, m raftpb.Message, data []byte) (int, error) {
+	picker, err := verifPicker(url)
+	if err != nil {
+		return 0, err
+	}
+	merged := *snap.NewMessage(m, ioutil.NopCloser(bytes.NewReader(data)), int64(len(data)))
+	body := createSnapBody(merged)
+	defer body.Close()
+	req := createPostRequest(picker.pick(), RaftSnapshotPrefix, body, "application/octet-stream", nil, local, verifClusterID)
+	resp, err := rt.RoundTrip(req)
+	if err != nil {
+		return 0, err
+	}
+	ioutil.ReadAll(resp.Body)
+	resp.Body.Close()
+	return resp.StatusCode, nil
+}
